@@ -71,6 +71,22 @@ pub fn generate(rng: &mut Rng, idx: usize, _tier: Tier) -> CaseOut {
         nodes.push(GNode::Text(lang.code[0].to_string()));
         plans.push((cond, content, pattern, beh));
     }
+    // every fourth case: check-lua blocks in the same file (the two asynchronous validators report on one file)
+    let nlua = if idx % 4 == 2 { rng.range(1, 2) } else { 0 };
+    let echo = format!("{}/echo.lua", mix::scripts_dir());
+    for k in 0..nlua {
+        let nm = format!("l{k}");
+        let aref: Vec<(&str, &str)> = vec![("name", nm.as_str()), ("check-lua", echo.as_str())];
+        nodes.push(simple_block(lang, rng, TagSrc::simple(&aref), &[format!("lua body {k}")]));
+        nodes.push(GNode::Text(lang.code[0].to_string()));
+    }
+    // fault cases: half of them also carry a warning-level finding of a synchronous rule - the endpoint
+    // fault must fail the run all the same
+    let with_warning = fault_kind <= 7 && idx % 2 == 0;
+    if with_warning {
+        let w = lang.wrap_token("dup");
+        nodes.push(simple_block(lang, rng, TagSrc::simple(&[("name", "w"), ("keep-unique", ""), ("severity", "warning")]), &[w.clone(), w]));
+    }
     let r = render(&FileSpec { lang, nodes, crlf: false, final_newline: true });
     let path = format!("ai/f{}.{}", idx % 4, lang.suffixes[0]);
     let files = vec![(path.clone(), r.text.clone())];
@@ -109,6 +125,12 @@ pub fn generate(rng: &mut Rng, idx: usize, _tier: Tier) -> CaseOut {
             }
         }
     }
+    for k in 0..nlua {
+        let b = &r.blocks[nblocks + k];
+        let arg = content_of(&r, nblocks + k).trim().to_string();
+        tables.lua.insert((echo.clone(), format!("{}:{}", path, b.ts.0), arg.clone()), (1, arg.clone()));
+        exp.push(format!("({}, mkdiag {} {} {} {} 6 1 [{}; {}])", cstr(&path), b.ts.0, b.ts.1, b.te.0, b.te.1, cstr(&echo), cstr(&arg)));
+    }
     let script2 = script.clone();
     let server = FakeAi::start(move |user| script2.iter().find(|(u, _)| u == user).map(|(_, b)| b.clone()).unwrap_or(Behavior::Status(418, false)));
     let url = if refused { "http://127.0.0.1:1/v1".to_string() } else { format!("http://127.0.0.1:{}/v1", server.port) };
@@ -139,7 +161,7 @@ pub fn generate(rng: &mut Rng, idx: usize, _tier: Tier) -> CaseOut {
         mix::rcase_coq(&spec, &tables), emit::obs(&obs),
         if any_fault { "None".to_string() } else { format!("(Some [{}])", exp.join("; ")) }, cbool(requests_ok)
     );
-    let mut tags = vec![format!("blocks:{nblocks}"), format!("fault:{}", match fault_kind { 0 => "4xx-json", 1 => "4xx-plain", 2 => "invalid-json", 3 => "no-choices", 4 => "null-content", 5 => "closed-mid-body", 6 => "refused", 7 => "no-key", _ => "none" }), format!("requests:{}", reqs.len().min(6))];
+    let mut tags = vec![format!("sync-warning:{with_warning}"), format!("lua-blocks:{nlua}"), format!("blocks:{nblocks}"), format!("fault:{}", match fault_kind { 0 => "4xx-json", 1 => "4xx-plain", 2 => "invalid-json", 3 => "no-choices", 4 => "null-content", 5 => "closed-mid-body", 6 => "refused", 7 => "no-key", _ => "none" }), format!("requests:{}", reqs.len().min(6))];
     match &obs {
         Outcome::Ok((ds, _)) => tags.push(format!("diagnostics:{}", ds.len())),
         Outcome::Err(cl, _) => tags.push(format!("error-class:{cl}")),
